@@ -112,6 +112,11 @@ impl<Error: Send + 'static> DecodeScheduler<Error> {
 		if self.shared.state() == PlaybackState::Stopped {
 			return Ok(NextStep::End);
 		}
+		// if the sound no longer exists (it was rejected by a full track or
+		// dropped along with its track or manager), end the thread
+		if self.frame_producer.is_abandoned() {
+			return Ok(NextStep::End);
+		}
 		// if the frame ringbuffer is full, sleep for a bit
 		if self.frame_producer.is_full() {
 			return Ok(NextStep::Wait);
